@@ -1,19 +1,17 @@
 (* FnTestMatch_proofs.v — lemmas about model/FnTestMatch.v
-   (function_test/run.py: the FunctionTest comparator and verdict functions).
+   (function_test/run.py: the FunctionTest comparator and verdict functions,
+   as repaired by commits 58c8051 and 87fca03).
 
    Contents
      1. basics: mand, membership, lookups, depth, fuel
-     2. the declarative relation [equiv E K] ("equal, nothing missing, nothing
-        extra, modulo the set / map directives"), parameterised by the
-        equality [E] used between members of set-compared lists and by the
-        reading [K] of a map-directed value as a keyed collection
-     3. tmatch_exact: the comparator accepts exactly [equiv py_eq list_to_object]
-     4. the strict reading [equiv strict_eq keyed_list], its relation to the
-        exact one, the side conditions under which they coincide, and the
-        witnesses where they do not (the findings)
+     2. the declarative relation [equiv] ("equal, nothing missing, nothing
+        extra, modulo the set / map directives")
+     3. tmatch_exact: the comparator accepts exactly [equiv] — no side condition
      5. deviations: [apart], [deviates1], single_deviation_fails (both sides)
      6. the outcome matcher
-     7. the verdict functions, MockApi, _merge_overlay *)
+     7. the verdict functions, MockApi, _merge_overlay
+     8. regressions for the three repaired defects, observations, and totality:
+        a [regular] expectation never makes the comparator raise *)
 From Koreo Require Import Json Outcome FnTestMatch.
 From Coq Require Import Lia Arith Permutation.
 Local Open Scope nat_scope.
@@ -26,7 +24,9 @@ Arguments list_match : simpl never.
 Arguments set_match : simpl never.
 Arguments set_keys : simpl never.
 Arguments map_fields : simpl never.
-Arguments list_to_object : simpl never.
+Arguments keyed_list : simpl never.
+Arguments object_list : simpl never.
+Arguments strict_eq : simpl never.
 Arguments py_eq : simpl never.
 
 (* ------------------------------------------------------------------ *)
@@ -134,7 +134,7 @@ Qed.
 Section WithKeyText.
   Variable key_text : json -> string.
   Notation keyed := (keyed key_text).
-  Notation list_to_object := (list_to_object key_text).
+  Notation keyed_list := (keyed_list key_text).
   Notation tmatch_fuel := (tmatch_fuel key_text).
   Notation tmatch := (tmatch key_text).
   Notation dict_match := (dict_match key_text).
@@ -151,41 +151,21 @@ Section WithKeyText.
       apply set_key_In in H1 as [[= -> ->]|H1]; auto.
   Qed.
 
-  Lemma iter_items_depth v items x :
-    iter_items v = Some items -> In x items -> depth x <= Nat.max (depth v - 1) 1.
+  Lemma object_list_inv v l : object_list v = Some l -> v = JList l /\ forallb is_map l = true.
   Proof.
-    destruct v; cbn; try discriminate; intros [= <-] Hin.
-    - apply in_map_iff in Hin as [c [<- _]]. cbn. lia.
-    - apply (depth_in_list l) in Hin. cbn in *. lia.
-    - apply in_map_iff in Hin as [c [<- _]]. cbn. lia.
+    unfold FnTestMatch.object_list. destruct v; try discriminate.
+    destruct (forallb is_map l0) eqn:E; [|discriminate]. intros [= <-]. auto.
   Qed.
 
-  (* the synthesised dict is no deeper than max (depth v) 2 *)
-  Lemma depth_list_to_object fields v o :
-    list_to_object fields v = Some o -> depth (JMap o) <= Nat.max (depth v) 2.
+  (* the synthesised dict is no deeper than the list it comes from *)
+  Lemma depth_keyed fields l o : keyed fields l [] = Some o -> depth (JMap o) <= depth (JList l).
   Proof.
-    unfold FnTestMatch.list_to_object. destruct (iter_items v) as [items|] eqn:Ei; [|discriminate].
     intros H. rewrite depth_map.
-    assert (kvs_depth o <= Nat.max (depth v - 1) 1).
+    assert (kvs_depth o <= depth (JList l) - 1).
     { apply kvs_depth_le. intros k x Hin.
       destruct (keyed_In _ _ _ _ _ _ H Hin) as [H1|[]].
-      eapply iter_items_depth; eauto. }
-    pose proof (depth_pos v). lia.
-  Qed.
-
-  Lemma map_fields_go_nonempty m mf k f :
-    map_fields_go m = Some mf -> lookup k mf = Some f -> m <> [].
-  Proof. destruct m; cbn; [intros [= <-]; discriminate|discriminate]. Qed.
-
-  (* a map directive that names a key makes the object at least 3 deep *)
-  Lemma map_directed_depth tk mf k f :
-    map_fields tk = Some mf -> lookup k mf = Some f -> 3 <= depth (JMap tk).
-  Proof.
-    unfold map_fields. destruct (lookup K_MAP tk) as [[| | | | | |m]|] eqn:E; try discriminate.
-    - intros H1 H2. pose proof (map_fields_go_nonempty _ _ _ _ H1 H2) as Hne.
-      apply depth_lookup in E. destruct m as [|[k0 v0] r]; [congruence|].
-      cbn in E. pose proof (depth_pos v0). cbn. lia.
-    - intros [= <-]. discriminate.
+      apply depth_in_list in H1. lia. }
+    pose proof (depth_pos (JList l)). lia.
   Qed.
 
   (* ---------- the fuel supplied by [tmatch] suffices ---------- *)
@@ -223,15 +203,17 @@ Section WithKeyText.
     - (* map, map *)
       unfold FnTestMatch.dict_match.
       destruct (set_keys kvs) as [sk|]; [|discriminate].
-      destruct (map_fields kvs) as [mf|] eqn:Emf; [|discriminate].
+      destruct (map_fields kvs) as [mf|]; [|discriminate].
       apply mand_not_fuel; [discriminate|].
       apply entries_not_fuel. intros k v w _ Hv Hw.
       unfold FnTestMatch.entry_match.
       destruct (lookup k mf) as [fields|] eqn:Ef.
-      + destruct (list_to_object fields v) as [tobj|] eqn:E1; [|discriminate].
-        destruct (list_to_object fields w) as [aobj|]; [|discriminate].
-        apply IH. apply depth_list_to_object in E1.
-        pose proof (map_directed_depth _ _ _ _ Emf Ef). apply depth_lookup in Hv. lia.
+      + destruct (object_list v) as [lv|] eqn:E1; [|discriminate].
+        destruct (object_list w) as [lw|]; [|discriminate].
+        destruct (keyed fields lv []) as [tobj|] eqn:Et; [|discriminate].
+        destruct (keyed fields lw []) as [aobj|]; [|discriminate].
+        apply IH. apply object_list_inv in E1 as [-> _]. apply depth_keyed in Et.
+        apply depth_lookup in Hv. lia.
       + apply IH. apply depth_lookup in Hv. lia.
   Qed.
 
@@ -246,12 +228,6 @@ Section WithKeyText.
   Definition plain_scalar (j : json) : bool :=
     match j with JNull | JInt _ | JFloat _ _ | JStr _ => true | _ => false end.
 
-  Section Equiv.
-    (* equality between members of set-compared lists *)
-    Variable E : json -> json -> bool.
-    (* reading of a map-directed value as a collection keyed by the fields *)
-    Variable K : list json -> json -> option (list (string * json)).
-
     (* [equiv s t a]: the actual value [a] is what the expectation [t]
        describes; [s] says that [t] sits under a key its object lists in
        x-koreo-compare-as-set *)
@@ -265,33 +241,34 @@ Section WithKeyText.
         equiv false (JList tl) (JList al)
     | Eq_set tl al :
         Forall (fun x => hashable x = true) tl -> Forall (fun x => hashable x = true) al ->
-        (forall x, In x tl -> exists y, In y al /\ E x y = true) ->
-        (forall y, In y al -> exists x, In x tl /\ E x y = true) ->
+        (* members: Python ==, a boolean only equal to a boolean *)
+        (forall x, In x tl -> exists y, In y al /\ strict_eq x y = true) ->
+        (forall y, In y al -> exists x, In x tl /\ strict_eq x y = true) ->
         equiv true (JList tl) (JList al)
     | Eq_map s tk ak sk mf :
         set_keys tk = Some sk -> map_fields tk = Some mf ->
         (* nothing missing, nothing extra *)
         (forall k, is_directive k = false -> (In k (map fst tk) <-> In k (map fst ak))) ->
-        (* a map-directed key holds a keyed collection on both sides ... *)
+        (* a map-directed key holds a list of objects on both sides ... *)
         (forall k v w fields, is_directive k = false ->
            lookup k tk = Some v -> lookup k ak = Some w -> lookup k mf = Some fields ->
-           K fields v <> None /\ K fields w <> None) ->
-        (* ... and the two collections are equivalent as objects *)
+           keyed_list fields v <> None /\ keyed_list fields w <> None) ->
+        (* ... and the two collections, keyed by the fields, are equivalent as objects *)
         (forall k v w fields tobj aobj, is_directive k = false ->
            lookup k tk = Some v -> lookup k ak = Some w -> lookup k mf = Some fields ->
-           K fields v = Some tobj -> K fields w = Some aobj -> equiv false (JMap tobj) (JMap aobj)) ->
+           keyed_list fields v = Some tobj -> keyed_list fields w = Some aobj ->
+           equiv false (JMap tobj) (JMap aobj)) ->
         (* every other key: equivalent values, as a set if so directed *)
         (forall k v w, is_directive k = false ->
            lookup k tk = Some v -> lookup k ak = Some w -> lookup k mf = None ->
            equiv (mem_str k sk) v w) ->
         equiv s (JMap tk) (JMap ak).
-  End Equiv.
 
   (* ------------------------------------------------------------------ *)
-  (* 3. the comparator accepts exactly [equiv py_eq list_to_object]       *)
+  (* 3. the comparator accepts exactly [equiv]                            *)
   (* ------------------------------------------------------------------ *)
 
-  Notation equivX := (equiv py_eq list_to_object).
+  Notation equivX := equiv.
 
   Lemma entries_match_true rec sk mf tk ak ks :
     entries_match rec sk mf tk ak ks = MDone true <->
@@ -343,22 +320,28 @@ Section WithKeyText.
       try reflexivity; try apply dyadic_eqb_sym; apply String.eqb_sym.
   Qed.
 
+  Lemma strict_eq_sym_hashable x y : hashable x = true -> hashable y = true -> strict_eq x y = strict_eq y x.
+  Proof.
+    intros Hx Hy. unfold FnTestMatch.strict_eq. rewrite (py_eq_sym_hashable x y Hx Hy). f_equal.
+    destruct (is_bool x), (is_bool y); reflexivity.
+  Qed.
+
   Lemma set_match_iff tl al :
     set_match tl al = true <->
     Forall (fun x => hashable x = true) tl /\ Forall (fun x => hashable x = true) al /\
-    (forall x, In x tl -> exists y, In y al /\ py_eq x y = true) /\
-    (forall y, In y al -> exists x, In x tl /\ py_eq x y = true).
+    (forall x, In x tl -> exists y, In y al /\ strict_eq x y = true) /\
+    (forall y, In y al -> exists x, In x tl /\ strict_eq x y = true).
   Proof.
-    unfold FnTestMatch.set_match, in_pyeq.
+    unfold FnTestMatch.set_match, in_strict.
     rewrite !Bool.andb_true_iff, !forallb_forall, !Forall_forall. split.
     - intros [[[H1 H2] H3] H4]. repeat split; auto.
       + intros x Hx. apply H3, existsb_exists in Hx. exact Hx.
       + intros y Hy. pose proof (H4 y Hy) as H. apply existsb_exists in H as [x [Hx Hxy]].
-        exists x. split; auto. rewrite py_eq_sym_hashable; auto.
+        exists x. split; auto. rewrite strict_eq_sym_hashable; auto.
     - intros (H1 & H2 & H3 & H4). repeat split; auto.
       + intros x Hx. apply existsb_exists. auto.
       + intros y Hy. apply existsb_exists. destruct (H4 y Hy) as [x [Hx Hxy]].
-        exists x. split; auto. rewrite py_eq_sym_hashable; auto.
+        exists x. split; auto. rewrite strict_eq_sym_hashable; auto.
   Qed.
 
   Ltac inv_equiv H := inversion H; subst; clear H; try discriminate; try (cbn in *; discriminate).
@@ -402,12 +385,17 @@ Section WithKeyText.
         apply Eq_map with (sk := sk) (mf := mf); auto.
         * intros k v w fields Hdk Hv Hw Hf. specialize (Hent k v w Hdk Hv Hw).
           unfold FnTestMatch.entry_match in Hent. rewrite Hf in Hent.
-          destruct (list_to_object fields v); [|discriminate].
-          destruct (list_to_object fields w); [|discriminate]. split; discriminate.
+          unfold FnTestMatch.keyed_list.
+          destruct (object_list v); [|discriminate]. destruct (object_list w); [|discriminate].
+          destruct (keyed fields l []); [|discriminate].
+          destruct (keyed fields l0 []); [|discriminate]. split; discriminate.
         * intros k v w fields tobj aobj Hdk Hv Hw Hf Ht Ha. specialize (Hent k v w Hdk Hv Hw).
-          unfold FnTestMatch.entry_match in Hent. rewrite Hf, Ht, Ha in Hent.
-          apply IH in Hent; auto. apply depth_list_to_object in Ht.
-          pose proof (map_directed_depth _ _ _ _ Emf Hf). apply depth_lookup in Hv. lia.
+          unfold FnTestMatch.entry_match in Hent. rewrite Hf in Hent.
+          unfold FnTestMatch.keyed_list in Ht, Ha.
+          destruct (object_list v) as [lv|] eqn:Ev; [|discriminate].
+          destruct (object_list w) as [lw|]; [|discriminate].
+          rewrite Ht, Ha in Hent. apply IH in Hent; auto.
+          apply object_list_inv in Ev as [-> _]. apply depth_keyed in Ht. apply depth_lookup in Hv. lia.
         * intros k v w Hdk Hv Hw Hf. specialize (Hent k v w Hdk Hv Hw).
           unfold FnTestMatch.entry_match in Hent. rewrite Hf in Hent.
           apply IH in Hent; auto. apply depth_lookup in Hv. lia.
@@ -418,18 +406,19 @@ Section WithKeyText.
           apply plain_keys_In in Hin as [_ Hdk].
           unfold FnTestMatch.entry_match. destruct (lookup k mf) as [fields|] eqn:Hf.
           -- destruct (Hn k v w fields Hdk Hv Hw Hf) as [N1 N2].
-             destruct (list_to_object fields v) as [tobj|] eqn:Et; [|congruence].
-             destruct (list_to_object fields w) as [aobj|] eqn:Ea; [|congruence].
-             apply IH; [|eapply Hm; eauto].
-             apply depth_list_to_object in Et.
-             pose proof (map_directed_depth _ _ _ _ Hmf Hf). apply depth_lookup in Hv. lia.
+             destruct (keyed_list fields v) as [tobj|] eqn:Et; [|congruence].
+             destruct (keyed_list fields w) as [aobj|] eqn:Ea; [|congruence].
+             pose proof (Hm k v w fields tobj aobj Hdk Hv Hw Hf Et Ea) as Hx.
+             unfold FnTestMatch.keyed_list in Et, Ea.
+             destruct (object_list v) as [lv|] eqn:Ev; [|discriminate].
+             destruct (object_list w) as [lw|]; [|discriminate].
+             rewrite Et, Ea. apply IH; [|exact Hx].
+             apply object_list_inv in Ev as [-> _]. apply depth_keyed in Et. apply depth_lookup in Hv. lia.
           -- apply IH; [|eapply Ho; eauto]. apply depth_lookup in Hv. lia.
   Qed.
 
   (* the comparator passes exactly when the actual value is what the
-     expectation describes (reading: members of set-compared lists are equal
-     under Python ==, a map-directed value is whatever _list_to_object makes
-     of it).  No side condition. *)
+     expectation describes.  No side condition. *)
   Theorem tmatch_exact t a : tmatch t a = MDone true <-> equivX false t a.
   Proof. apply tmatch_fuel_exact. lia. Qed.
 
@@ -522,7 +511,7 @@ Section WithKeyText.
   Lemma plain_scalar_kind j : plain_scalar j = true <-> kind j = 0.
   Proof. destruct j; cbn; split; congruence. Qed.
 
-  Lemma equiv_kind E K s t a : equiv E K s t a -> kind t = kind a.
+  Lemma equiv_kind s t a : equiv s t a -> kind t = kind a.
   Proof.
     destruct 1; try reflexivity.
     apply plain_scalar_kind in H, H0. congruence.
@@ -595,9 +584,7 @@ Section WithKeyText.
       apart (JMap kvs) (JMap kvs').
 
   Section Excl.
-    Variable E : json -> json -> bool.
-    Variable K : list json -> json -> option (list (string * json)).
-    Notation equivG := (equiv E K).
+    Notation equivG := equiv.
 
     Ltac inv H := inversion H; subst; clear H; try discriminate; try (cbn in *; discriminate).
 
@@ -1097,135 +1084,40 @@ Section Sent.
 End Sent.
 
 (* ------------------------------------------------------------------ *)
-(* 4. the strict reading and where the comparator departs from it      *)
+(* 8. regressions, observations, totality                              *)
 (* ------------------------------------------------------------------ *)
 
-Definition is_bool (j : json) : bool := match j with JBool _ => true | _ => false end.
-Definition is_map (j : json) : bool := match j with JMap _ => true | _ => false end.
-
-(* members of a set-compared list are equal: Python ==, but a boolean is
-   only equal to a boolean (as everywhere else in the comparator) *)
-Definition strict_eq (x y : json) : bool := py_eq x y && Bool.eqb (is_bool x) (is_bool y).
-
-Section Strict.
+Section Regressions.
   Variable key_text : json -> string.
-
-  (* a map-directed value is a list of objects, keyed by the fields *)
-  Definition keyed_list (fields : list json) (v : json) : option (list (string * json)) :=
-    match v with
-    | JList l => if forallb is_map l then keyed key_text fields l [] else None
-    | _ => None
-    end.
-
-  Notation equivX := (equiv py_eq (list_to_object key_text)).
-  Notation equivS := (equiv strict_eq keyed_list).
-
-  Lemma keyed_list_lax fields v o : keyed_list fields v = Some o -> list_to_object key_text fields v = Some o.
-  Proof.
-    unfold keyed_list, FnTestMatch.list_to_object. destruct v; try discriminate.
-    destruct (forallb is_map l); [|discriminate]. cbn. auto.
-  Qed.
-
-  Lemma strict_eq_lax x y : strict_eq x y = true -> py_eq x y = true.
-  Proof. unfold strict_eq. now intros [H _]%Bool.andb_true_iff. Qed.
-
-  (* the strict reading implies the one the comparator implements *)
-  Lemma equiv_strict_lax s t a : equivS s t a -> equivX s t a.
-  Proof.
-    induction 1 as [s t a Ht Ha He|s b|tl al Hl Hp IH|tl al Ht Ha H1 H2
-                   |s tk ak sk mf Hsk Hmf Hk Hn Hm IHm Ho IHo].
-    - now apply Eq_scalar.
-    - apply Eq_bool.
-    - apply Eq_list; auto.
-    - apply Eq_set; auto.
-      + intros x Hx. destruct (H1 x Hx) as (y & Hy & E). eauto using strict_eq_lax.
-      + intros y Hy. destruct (H2 y Hy) as (x & Hx & E). eauto using strict_eq_lax.
-    - apply Eq_map with (sk := sk) (mf := mf); auto.
-      + intros k v w fields Hd Hv Hw Hf. destruct (Hn k v w fields Hd Hv Hw Hf) as [N1 N2].
-        destruct (keyed_list fields v) eqn:E1; [|congruence].
-        destruct (keyed_list fields w) eqn:E2; [|congruence].
-        rewrite (keyed_list_lax _ _ _ E1), (keyed_list_lax _ _ _ E2). split; discriminate.
-      + intros k v w fields tobj aobj Hd Hv Hw Hf Et Ea.
-        destruct (Hn k v w fields Hd Hv Hw Hf) as [N1 N2].
-        destruct (keyed_list fields v) as [o1|] eqn:E1; [|congruence].
-        destruct (keyed_list fields w) as [o2|] eqn:E2; [|congruence].
-        rewrite (keyed_list_lax _ _ _ E1) in Et. rewrite (keyed_list_lax _ _ _ E2) in Ea.
-        injection Et as <-. injection Ea as <-. eapply IHm; eauto.
-  Qed.
-
-  (* "an assertion derived from the Function's actual behaviour passes":
-     whatever the expectation (directives included), if the actual value is
-     what it describes under the STRICT reading, the comparator passes *)
-  Theorem tmatch_complete t a : equivS false t a -> tmatch key_text t a = MDone true.
-  Proof. intros H. apply tmatch_exact. now apply equiv_strict_lax. Qed.
-
-  (* without directives the two readings coincide *)
-  Lemma equiv_dfree_any E1 K1 E2 K2 t a :
-    dfree t = true -> equiv E1 K1 false t a -> equiv E2 K2 false t a.
-  Proof.
-    intros Hf H. remember false as s eqn:Es. revert Hf.
-    induction H as [s t a Ht Ha He|s b|tl al Hl Hp IH|tl al Ht Ha H1 H2
-                   |s tk ak sk mf Hsk Hmf Hk Hn Hm IHm Ho IHo]; intros Hf.
-    - now apply Eq_scalar.
-    - apply Eq_bool.
-    - apply Eq_list; auto. intros i x y Hx Hy. eapply IH; eauto. eapply dfree_nth; eauto.
-    - discriminate.
-    - rewrite (dfree_set_keys key_text _ Hf) in Hsk. rewrite (dfree_map_fields key_text _ Hf) in Hmf.
-      injection Hsk as <-. injection Hmf as <-.
-      apply Eq_map with (sk := []) (mf := []); auto using (dfree_set_keys key_text), (dfree_map_fields key_text).
-      + intros k v w fields _ _ _ Hl. discriminate.
-      + intros k v w fields tobj aobj _ _ _ Hl. discriminate.
-      + intros k v w Hd Hv Hw _. eapply IHo; eauto. eapply (dfree_lookup key_text); eauto.
-  Qed.
-
-  (* tmatch_iff, for an expectation without directives: pass iff the actual
-     value is exactly the expected one — equal, nothing missing, nothing extra *)
-  Theorem tmatch_iff_dfree t a :
-    dfree t = true -> (tmatch key_text t a = MDone true <-> equivS false t a).
-  Proof.
-    intros Hf. rewrite tmatch_exact. split; apply equiv_dfree_any; exact Hf.
-  Qed.
-
-  (* ---------- where the comparator departs from the strict reading ---------- *)
-
   Local Open Scope string_scope.
 
-  (* F1: in a set-compared list a boolean and the equal number are conflated *)
-  Theorem tmatch_sound_strict_refuted_set_bool :
-    exists t a, tmatch key_text t a = MDone true /\ ~ equivS false t a.
-  Proof.
-    exists (JMap [("l", JList [JBool true]); (K_SET, JList [JStr "l"])]), (JMap [("l", JList [JInt 1])]).
-    split; [reflexivity|]. intros H.
-    inversion H as [? ? ? Hp|?|?|?|s' tk ak sk mf Hsk Hmf Hkeys _ _ Ho]; subst; [discriminate|].
-    vm_compute in Hsk, Hmf. injection Hsk as <-. injection Hmf as <-.
-    specialize (Ho "l" (JList [JBool true]) (JList [JInt 1]) eq_refl eq_refl eq_refl eq_refl).
-    vm_compute in Ho.
-    inversion Ho as [? ? ? Hp|?|?|tl al _ _ H1 _|]; subst; [discriminate|].
-    destruct (H1 (JBool true) (or_introl eq_refl)) as (y & [<-|[]] & E). discriminate.
-  Qed.
+  (* the three repaired defects (F1, F2, F2b of notes/C19.md): now failing verdicts *)
+  Lemma set_bool_number_kept_apart :
+    tmatch key_text (JMap [("l", JList [JBool true; JStr "z"]); (K_SET, JList [JStr "l"])])
+                    (JMap [("l", JList [JStr "z"; JInt 1])]) = MDone false.
+  Proof. reflexivity. Qed.
 
-  (* F2: with a map directive, an actual value that is not a list of objects
-     makes the comparator RAISE (no verdict at all) *)
-  Theorem tmatch_raises :
-    exists t a, tmatch key_text t a = MRaised.
-  Proof.
-    exists (JMap [("items", JList [JMap [("name", JStr "a")]]); (K_MAP, JMap [("items", JList [JStr "name"])])]),
-           (JMap [("items", JNull)]).
-    reflexivity.
-  Qed.
+  Lemma map_actual_not_a_list_fails :
+    tmatch key_text (JMap [("items", JList [JMap [("name", JStr "a")]]); (K_MAP, JMap [("items", JList [JStr "name"])])])
+                    (JMap [("items", JNull)]) = MDone false.
+  Proof. reflexivity. Qed.
 
-  (* F2b: ... and '' / {} are accepted where the empty list is expected *)
-  Theorem tmatch_sound_strict_refuted_map_empty :
-    exists t a, tmatch key_text t a = MDone true /\ ~ equivS false t a.
-  Proof.
-    exists (JMap [("items", JList []); (K_MAP, JMap [("items", JList [JStr "name"])])]),
-           (JMap [("items", JStr "")]).
-    split; [reflexivity|]. intros H.
-    inversion H as [? ? ? Hp|?|?|?|s' tk ak sk mf Hsk Hmf Hkeys Hn _ _]; subst; [discriminate|].
-    vm_compute in Hsk, Hmf. injection Hsk as <-. injection Hmf as <-.
-    destruct (Hn "items" (JList []) (JStr "") [JStr "name"] eq_refl eq_refl eq_refl eq_refl) as [_ N].
-    apply N. reflexivity.
-  Qed.
+  Lemma map_actual_item_not_an_object_fails :
+    tmatch key_text (JMap [("items", JList [JMap [("name", JStr "a")]]); (K_MAP, JMap [("items", JList [JStr "name"])])])
+                    (JMap [("items", JList [JInt 5])]) = MDone false.
+  Proof. reflexivity. Qed.
+
+  Lemma map_empty_string_is_not_the_empty_list :
+    tmatch key_text (JMap [("items", JList []); (K_MAP, JMap [("items", JList [JStr "name"])])])
+                    (JMap [("items", JStr "")]) = MDone false.
+  Proof. reflexivity. Qed.
+
+  (* an EXPECTED value that is not a list of objects under a map directive
+     matches nothing, not even itself *)
+  Lemma map_expected_not_a_list_fails :
+    tmatch key_text (JMap [("items", JStr "text"); (K_MAP, JMap [("items", JList [JStr "name"])])])
+                    (JMap [("items", JStr "text")]) = MDone false.
+  Proof. reflexivity. Qed.
 
   (* observation: directive-named keys of the ACTUAL value are invisible *)
   Lemma actual_directive_key_ignored :
@@ -1238,37 +1130,14 @@ Section Strict.
     tmatch key_text (JMap [("l", JList [JInt 1; JInt 2]); (K_SET, JList [JStr "l"])])
                     (JMap [("l", JList [JInt 2; JInt 1; JInt 1])]) = MDone true.
   Proof. reflexivity. Qed.
-End Strict.
 
-(* ---------- side conditions under which the two readings coincide ---------- *)
+  (* observation: a malformed directive VALUE in the assertion still raises *)
+  Lemma malformed_directive_value_raises :
+    tmatch key_text (JMap [("a", JInt 1); (K_SET, JInt 5)]) (JMap [("a", JInt 1)]) = MRaised.
+  Proof. reflexivity. Qed.
+End Regressions.
 
-Definition no_bools (l : list json) : bool := forallb (fun x => negb (is_bool x)) l.
-
-(* no list of the value directly holds a boolean *)
-Fixpoint nobool_lists (j : json) : bool :=
-  match j with
-  | JList l => no_bools l && forallb nobool_lists l
-  | JMap kvs =>
-      (fix go (l : list (string * json)) : bool :=
-         match l with [] => true | (_, v) :: r => nobool_lists v && go r end) kvs
-  | _ => true
-  end.
-
-Lemma nobool_map_In kvs k v : nobool_lists (JMap kvs) = true -> In (k, v) kvs -> nobool_lists v = true.
-Proof.
-  induction kvs as [|[k0 v0] r IH]; cbn; [tauto|].
-  rewrite Bool.andb_true_iff. intros [H1 H2] [[= -> ->]|Hin]; auto.
-Qed.
-
-Lemma nobool_map_intro kvs : (forall k v, In (k, v) kvs -> nobool_lists v = true) -> nobool_lists (JMap kvs) = true.
-Proof.
-  induction kvs as [|[k0 v0] r IH]; cbn; intros H; [reflexivity|].
-  rewrite (H k0 v0) by auto. cbn. apply IH. intros; eapply H; eauto.
-Qed.
-
-Lemma nobool_list_inv l : nobool_lists (JList l) = true ->
-  no_bools l = true /\ forall x, In x l -> nobool_lists x = true.
-Proof. cbn. rewrite Bool.andb_true_iff, forallb_forall. tauto. Qed.
+(* ---------- totality: a well-formed expectation never makes the comparator raise ---------- *)
 
 Section Regular.
   Variable key_text : json -> string.
@@ -1280,26 +1149,29 @@ Section Regular.
              (k : string) (v : json) : bool :=
     match lookup k mf with
     | Some fields =>
-        (* map-directed: a non-empty list of objects, keyed by at least one
-           field, every object regular, no key text a directive name *)
-        match fields, v with
-        | _ :: _, JList (x :: xs) =>
-            forallb is_map (x :: xs) && forallb reg (x :: xs) &&
-            match keyed key_text fields (x :: xs) [] with
-            | Some o => all_plain (map fst o)
-            | None => false
-            end
-        | _, _ => false
+        (* map-directed: hashable key fields; if the value is a list of objects,
+           every object is regular and no key text is a directive name *)
+        forallb hashable fields &&
+        match v with
+        | JList l =>
+            if forallb is_map l
+            then forallb reg l &&
+                 match keyed key_text fields l [] with
+                 | Some o => all_plain (map fst o)
+                 | None => false
+                 end
+            else true
+        | _ => true
         end
     | None =>
         match v with
-        (* set-directed: no booleans among the members *)
-        | JList items => if mem_str k sk then no_bools items else forallb reg items
+        | JList items => if mem_str k sk then true else forallb reg items
         | _ => reg v
         end
     end.
 
-  (* [regular t]: the expectation uses the directives as documented *)
+  (* [regular t]: every directive value in t has the documented shape (an
+     array of names / an object of arrays of names) *)
   Fixpoint regular (t : json) : bool :=
     match t with
     | JList l => forallb regular l
@@ -1316,10 +1188,9 @@ Section Regular.
     | _ => true
     end.
 
-  (* the same for a value sitting under a set-directed key *)
   Definition regular_s (s : bool) (t : json) : bool :=
     match t with
-    | JList l => if s then no_bools l else forallb regular l
+    | JList l => if s then true else forallb regular l
     | _ => regular t
     end.
 
@@ -1336,27 +1207,6 @@ Section Regular.
     induction tk as [|[k0 v0] r IH]; [intros ? ? []|].
     apply Bool.andb_true_iff in H as [H1 H2]. intros k v [[= -> ->]|Hin] Hd; [|eauto].
     rewrite Hd in H1. exact H1.
-  Qed.
-
-  Lemma keyed_all_maps fields l : forall acc o,
-    fields <> [] -> keyed key_text fields l acc = Some o -> forallb is_map l = true.
-  Proof.
-    induction l as [|it r IH]; cbn; intros acc o Hf H; [reflexivity|].
-    destruct (item_key key_text it fields) as [k0|] eqn:E; [|discriminate].
-    rewrite (IH _ _ Hf H), Bool.andb_true_r.
-    unfold item_key in E. destruct fields; [congruence|]. destruct it; try discriminate. reflexivity.
-  Qed.
-
-  Lemma set_key_nonempty {A} k (v : A) acc : set_key k v acc <> [].
-  Proof. destruct acc as [|[k0 v0] r]; cbn; [discriminate|]. destruct (String.eqb k k0); discriminate. Qed.
-
-  Lemma keyed_nonempty fields l : forall acc o,
-    keyed key_text fields l acc = Some o -> (l <> [] \/ acc <> []) -> o <> [].
-  Proof.
-    induction l as [|it r IH]; cbn; intros acc o H Hne.
-    - injection H as <-. destruct Hne; congruence.
-    - destruct (item_key key_text it fields) as [k0|]; [|discriminate].
-      eapply IH; eauto. right. apply set_key_nonempty.
   Qed.
 
   Lemma all_plain_no_directive (o : list (string * json)) d :
@@ -1380,95 +1230,59 @@ Section Regular.
     - apply IH; auto. intros; eapply Hv; cbn; eauto.
   Qed.
 
-  Notation equivX := (equiv py_eq (list_to_object key_text)).
-  Notation equivS := (equiv strict_eq (keyed_list key_text)).
-
-  Lemma no_bools_In l x : no_bools l = true -> In x l -> is_bool x = false.
-  Proof. unfold no_bools. rewrite forallb_forall. intros H Hin. apply H, Bool.negb_true_iff in Hin. exact Hin. Qed.
-
-  (* under the side conditions the reading the comparator implements implies the strict one *)
-  Lemma equiv_lax_strict s t a :
-    equivX s t a -> regular_s s t = true -> nobool_lists a = true -> equivS s t a.
+  Lemma obj_key_total obj fields :
+    forallb hashable fields = true -> exists ks, obj_key key_text obj fields = Some ks.
   Proof.
-    induction 1 as [s t a Ht Ha He|s b|tl al Hl Hp IH|tl al Ht Ha H1 H2
-                   |s tk ak sk mf Hsk Hmf Hk Hn Hm IHm Ho IHo]; intros Hr Hb.
-    - now apply Eq_scalar.
-    - apply Eq_bool.
-    - apply Eq_list; auto. intros i x y Hx Hy. eapply IH; eauto.
-      + rewrite regular_s_false. cbn in Hr. rewrite forallb_forall in Hr. apply Hr. eapply nth_error_In; eauto.
-      + apply nobool_list_inv in Hb as [_ Hb]. apply Hb. eapply nth_error_In; eauto.
-    - cbn in Hr. apply nobool_list_inv in Hb as [Hb _].
-      apply Eq_set; auto.
-      + intros x Hx. destruct (H1 x Hx) as (y & Hy & E). exists y. split; auto.
-        unfold strict_eq. rewrite E, (no_bools_In _ _ Hr Hx), (no_bools_In _ _ Hb Hy). reflexivity.
-      + intros y Hy. destruct (H2 y Hy) as (x & Hx & E). exists x. split; auto.
-        unfold strict_eq. rewrite E, (no_bools_In _ _ Hr Hx), (no_bools_In _ _ Hb Hy). reflexivity.
-    - change (regular_s s (JMap tk)) with (regular (JMap tk)) in Hr.
-      destruct (regular_map_inv _ Hr) as (sk' & mf' & Hsk' & Hmf' & Hent).
-      rewrite Hsk in Hsk'. rewrite Hmf in Hmf'. injection Hsk' as <-. injection Hmf' as <-.
-      (* facts about one map-directed key *)
-      assert (Hdir : forall k v w fields, is_directive k = false -> lookup k tk = Some v ->
-                lookup k ak = Some w -> lookup k mf = Some fields ->
-                exists o ao, keyed_list key_text fields v = Some o /\ keyed_list key_text fields w = Some ao /\
-                             equivS false (JMap o) (JMap ao)).
-      { intros k v w fields Hd Hv Hw Hf.
-        pose proof (Hent k v (lookup_In_pair _ _ _ Hv) Hd) as Eok. unfold entry_ok in Eok. rewrite Hf in Eok.
-        destruct fields as [|f0 fr]; [discriminate|]. destruct v as [| | | | |[|x xs]|]; try discriminate.
-        apply Bool.andb_true_iff in Eok as [Eok Ek]. apply Bool.andb_true_iff in Eok as [Emaps Ereg].
-        destruct (keyed key_text (f0 :: fr) (x :: xs) []) as [o|] eqn:Eo; [|discriminate].
-        assert (Kv : keyed_list key_text (f0 :: fr) (JList (x :: xs)) = Some o).
-        { unfold keyed_list. now rewrite Emaps. }
-        pose proof (keyed_list_lax key_text _ _ _ Kv) as Lv.
-        destruct (Hn k _ w _ Hd Hv Hw Hf) as [_ Nw].
-        destruct (list_to_object key_text (f0 :: fr) w) as [ao|] eqn:Lw; [|congruence].
-        pose proof (Hm k _ w _ o ao Hd Hv Hw Hf Lv Lw) as Hx.
-        assert (Hone : o <> []) by (eapply keyed_nonempty; eauto; left; discriminate).
-        (* w is a list of objects *)
-        assert (Kw : keyed_list key_text (f0 :: fr) w = Some ao).
-        { unfold FnTestMatch.list_to_object in Lw. destruct (iter_items w) as [its|] eqn:Ei; [|discriminate].
-          assert (Hmaps : forallb is_map its = true) by (apply (keyed_all_maps (f0 :: fr) its [] ao); [discriminate|exact Lw]).
-          destruct w; cbn in Ei; try discriminate; injection Ei as <-.
-          - (* a str: no characters, so ao = [] *)
-            destruct (utf8_chars s0); [|discriminate]. cbn in Lw. injection Lw as <-.
-            exfalso. destruct o as [|[k0 v0] o']; [congruence|].
-            inversion Hx as [? ? ? Hp'|?|?|?|? ? ? ? ? _ _ Hkeys _ _ _]; subst; [discriminate|].
-            cbn in Ek. apply Bool.andb_true_iff in Ek as [Ek0 _]. apply Bool.negb_true_iff in Ek0.
-            apply (Hkeys k0 Ek0). cbn. auto.
-          - unfold keyed_list. now rewrite Hmaps.
-          - destruct kvs; [|discriminate]. cbn in Lw. injection Lw as <-.
-            exfalso. destruct o as [|[k0 v0] o']; [congruence|].
-            inversion Hx as [? ? ? Hp'|?|?|?|? ? ? ? ? _ _ Hkeys _ _ _]; subst; [discriminate|].
-            cbn in Ek. apply Bool.andb_true_iff in Ek as [Ek0 _]. apply Bool.negb_true_iff in Ek0.
-            apply (Hkeys k0 Ek0). cbn. auto. }
-        exists o, ao. repeat split; auto.
-        apply (IHm k _ w _ o ao Hd Hv Hw Hf Lv Lw).
-        - apply regular_keyed; auto. intros k' v' Hin.
-          destruct (keyed_In key_text _ _ _ _ _ _ Eo Hin) as [Hi|[]].
-          rewrite forallb_forall in Ereg. auto.
-        - apply nobool_map_intro. intros k' v' Hin.
-          unfold keyed_list in Kw. destruct w; try discriminate. destruct (forallb is_map l); [|discriminate].
-          destruct (keyed_In key_text _ _ _ _ _ _ Kw Hin) as [Hi|[]].
-          apply lookup_In_pair in Hw. pose proof (nobool_map_In _ _ _ Hb Hw) as Hbw.
-          apply nobool_list_inv in Hbw as [_ Hbw]. auto. }
-      apply Eq_map with (sk := sk) (mf := mf); auto.
-      + intros k v w fields Hd Hv Hw Hf.
-        destruct (Hdir k v w fields Hd Hv Hw Hf) as (o & ao & -> & -> & _). split; discriminate.
-      + intros k v w fields tobj aobj Hd Hv Hw Hf Et Ea.
-        destruct (Hdir k v w fields Hd Hv Hw Hf) as (o & ao & Eo & Eao & Hx).
-        rewrite Eo in Et. rewrite Eao in Ea. injection Et as <-. injection Ea as <-. exact Hx.
-      + intros k v w Hd Hv Hw Hf. apply (IHo k v w Hd Hv Hw Hf).
-        * pose proof (Hent k v (lookup_In_pair _ _ _ Hv) Hd) as Eok. unfold entry_ok in Eok. rewrite Hf in Eok.
-          unfold regular_s. destruct v; auto.
-        * apply lookup_In_pair in Hw. eapply nobool_map_In; eauto.
+    induction fields as [|f r IH]; cbn; [eauto|]. rewrite Bool.andb_true_iff. intros [Hf Hr].
+    destruct (IH Hr) as [ks ->]. destruct f; cbn in Hf; try discriminate; cbn; eauto.
   Qed.
 
-  (* tmatch_iff, strict reading, for every regular expectation *)
-  Theorem tmatch_iff_regular t a :
-    regular t = true -> nobool_lists a = true ->
-    (tmatch key_text t a = MDone true <-> equivS false t a).
+  Lemma keyed_total fields l :
+    forallb hashable fields = true -> forallb is_map l = true ->
+    forall acc, exists o, keyed key_text fields l acc = Some o.
   Proof.
-    intros Hr Hb. split.
-    - intros H. apply tmatch_exact in H. apply equiv_lax_strict; auto. now rewrite regular_s_false.
-    - apply tmatch_complete.
+    intros Hf. induction l as [|it r IH]; cbn; [eauto|]. rewrite Bool.andb_true_iff. intros [Hi Hr] acc.
+    destruct it; cbn in Hi; try discriminate.
+    unfold item_key. destruct fields as [|f0 fr]; [apply IH; auto|].
+    destruct (obj_key_total kvs (f0 :: fr) Hf) as [ks ->]. cbn. apply IH; auto.
   Qed.
+
+  (* whatever the actual value, a regular expectation yields a verdict *)
+  Theorem regular_no_raise : forall n t a s,
+    regular_s s t = true -> depth t <= n -> exists b, tmatch_fuel key_text n t a s = MDone b.
+  Proof.
+    induction n as [|n IH]; intros t a s Hr Hd; [pose proof (depth_pos t); lia|].
+    destruct t, a; cbn [FnTestMatch.tmatch_fuel]; eauto.
+    - destruct s; eauto. destruct (Nat.eqb _ _); eauto.
+      apply list_match_done. intros x y Hin. apply IH.
+      + rewrite regular_s_false. cbn in Hr. rewrite forallb_forall in Hr. auto.
+      + apply depth_in_list in Hin. lia.
+    - change (regular_s s (JMap kvs)) with (regular (JMap kvs)) in Hr.
+      destruct (regular_map_inv _ Hr) as (sk & mf & Hsk & Hmf & Hent).
+      unfold FnTestMatch.dict_match. rewrite Hsk, Hmf.
+      destruct (entries_done key_text (tmatch_fuel key_text n) sk mf kvs kvs0 (plain_keys kvs)) as [b Hb].
+      + intros k v w Hin Hv Hw. apply plain_keys_In in Hin as [_ Hdk].
+        pose proof (Hent k v (lookup_In_pair _ _ _ Hv) Hdk) as Eok.
+        unfold entry_ok in Eok. unfold FnTestMatch.entry_match.
+        destruct (lookup k mf) as [fields|].
+        * apply Bool.andb_true_iff in Eok as [Hh Eok].
+          destruct (object_list v) as [lv|] eqn:Ev; [|eauto].
+          destruct (object_list w) as [lw|] eqn:Ew; [|eauto].
+          apply object_list_inv in Ev as [-> Mv]. apply object_list_inv in Ew as [-> Mw].
+          rewrite Mv in Eok. apply Bool.andb_true_iff in Eok as [Ereg Ek].
+          destruct (keyed key_text fields lv []) as [o|] eqn:Eo; [|discriminate].
+          destruct (keyed_total fields lw Hh Mw []) as [ao ->].
+          apply IH.
+          -- rewrite regular_s_false. apply regular_keyed; auto. intros k' v' Hin'.
+             destruct (keyed_In key_text _ _ _ _ _ _ Eo Hin') as [Hi|[]].
+             rewrite forallb_forall in Ereg. auto.
+          -- apply depth_keyed in Eo. apply depth_lookup in Hv. lia.
+        * apply IH.
+          -- unfold regular_s. destruct v; auto.
+          -- apply depth_lookup in Hv. lia.
+      + rewrite Hb. cbn. eauto.
+  Qed.
+
+  Theorem regular_total t a : regular t = true -> exists b, tmatch key_text t a = MDone b.
+  Proof. intros Hr. apply regular_no_raise; [now rewrite regular_s_false|lia]. Qed.
 End Regular.
